@@ -80,6 +80,19 @@ func main() {
 		os.Exit(code)
 	case "list":
 		e.cmdList()
+	case "layout":
+		bad := 0
+		obs := e.layoutObligations([]string{"pack", "unpack"})
+		obs = append(obs, e.structuralObligations("len")...)
+		obs = append(obs, e.structuralObligations("copy")...)
+		obs = append(obs, e.structuralObligations("isDuplicate")...)
+		for _, ob := range obs {
+			if ob.Status != "proved" {
+				bad++
+				fmt.Printf("%-8s %-40s %s\n", ob.Status, ob.Name, ob.Output)
+			}
+		}
+		fmt.Printf("layout obligations=%d not-discharged=%d\n", len(obs), bad)
 	case "mods":
 		var ex []string
 		for _, n := range fs.Args() {
